@@ -23,7 +23,13 @@ Lemma eval_BOr2 f a b ρ w : eval G (S f) (EBoolOp BOr [a; b]) ρ w =
   (do vw <- eval G f a ρ w; do t <- m_truthy (fst vw) (snd vw); if fst t then Ok (fst vw, snd t) else eval G f b ρ (snd t)).
 Proof. cbn [eval]. destruct (eval G f a ρ w) as [[v w1]| | |]; cbn [bind fst snd]; try reflexivity.
   all: try (destruct (m_truthy v w1) as [[t w2]| | |]; cbn [bind fst snd]; try reflexivity; destruct t; reflexivity). Qed.
+Lemma eval_EBin f o a b ρ w : eval G (S f) (EBin o a b) ρ w = (do aw <- eval G f a ρ w; do bw <- eval G f b ρ (snd aw); do_binop_np o (fst aw) (fst bw) (snd bw)).
+Proof. reflexivity. Qed.
 End Sym.
+Lemma subscript_dict d k : subscript (VDict d) k = match dict_get k d with Some v => Ok v | None => Exc "KeyError" end.
+Proof. reflexivity. Qed.
+Lemma Sym_app_snoc {A} (p : list A) a r : (p ++ a :: r = (p ++ [a]) ++ r)%list.
+Proof. rewrite <- app_assoc. reflexivity. Qed.
 
 Definition snum (r : R) := VNum (Fin r).
 (* the element of a list of numbers at the position given by the length of a prefix *)
